@@ -102,6 +102,9 @@ def _is_generator(node):
     return False
 
 
+_VERIF_CONTRACTS = os.path.join(os.path.dirname(os.path.dirname(os.path.abspath(__file__))), "contracts")
+
+
 class StarArgs:
     """Marker for a call `f(a, b, *xs)` whose `xs` has symbolic length: pass StarArgs(xs) as the last positional argument."""
 
@@ -421,6 +424,15 @@ class Interp:
         except (PathEnd, Infeasible, Undecided, EngineError, PyRaise, _Return, _Break, _Continue):
             raise
         except Exception as e:  # exception of the interpreted program
+            if isinstance(e, (NameError, AttributeError, TypeError)) and e.__traceback__ is not None:
+                # an exception RAISED inside a helper of the verification machinery itself (a stand-in method, a scenario callback) is a bug of
+                # the checker, never behaviour of the program under contract
+                tb = e.__traceback__
+                while tb.tb_next is not None:
+                    tb = tb.tb_next
+                where = tb.tb_frame.f_code.co_filename
+                if where.startswith(_VERIF_CONTRACTS) and isinstance(e, NameError):
+                    raise EngineError(f"scenario helper bug at {where}:{tb.tb_lineno}: {e!r}")
             raise PyRaise(e)
 
     def _call_pyfunc(self, func, args, kwargs, orig):
